@@ -38,6 +38,9 @@ type Hooks interface {
 	CondWait(c *sync.Cond)
 	CondSignal(c *sync.Cond)
 	CondBroadcast(c *sync.Cond)
+	// OnceDo stands in for (*sync.Once).Do: callers take turns through the simulator (the
+	// Once's own mutex is one it cannot see), the real Do decides whether f runs.
+	OnceDo(o *sync.Once, f func())
 	// GoForeign runs f as a new task although the caller is not a task (a timer's or a
 	// context's AfterFunc goroutine). It reports false if it cannot (then the caller
 	// runs f itself).
@@ -147,6 +150,14 @@ func TryRLock(m *sync.RWMutex) bool {
 		return h.TryRLock(m)
 	}
 	return m.TryRLock()
+}
+
+func OnceDo(o *sync.Once, f func()) {
+	if h := get(); h != nil {
+		h.OnceDo(o, f)
+		return
+	}
+	o.Do(f)
 }
 
 func CondWait(c *sync.Cond) {
